@@ -103,6 +103,21 @@ func genCliCase(r *Rng, tier string) CliCase {
 	case 9, 10:
 		k := r.Range(1, 7)
 		s := genSyn(r, k, r.Range(0, 4))
+		if r.Chance(1, 6) { // two exactly-one groups of 5 or 6 names with the same first and last name, and two more conjuncts
+			k = r.Range(8, 9)
+			sz := r.Range(5, 6)
+			p := r.Perm(k)
+			g1 := append([]int{}, p[:sz]...)
+			g2 := append([]int{p[0]}, p[sz:]...)
+			for _, x := range p[1 : sz-1] {
+				if len(g2) < sz-1 {
+					g2 = append(g2, x)
+				}
+			}
+			g2 = append(g2, p[sz-1])
+			s = &syn{op: ";", kids: []*syn{{op: "unique", names: g1}, {op: ";", kids: []*syn{{op: "unique", names: g2},
+				{op: ";", kids: []*syn{{op: "var", v: g1[1+r.Intn(sz-2)]}, {op: "var", v: g2[1+r.Intn(sz-2)]}}}}}}}
+		}
 		f := s.ref()
 		return CliCase{Ext: "bf", Bf: &f, K: k, Text: renderTokens(r, s.tokens(r, r.Intn(3))), Flags: nil}
 	default:
